@@ -157,7 +157,7 @@ def replay_cases(path):
     raise vlib.CheckError("no case in replay file")
 
 
-def run_replay(path, profiles=("debug", "release"), modes=("sync", "yield"), dump=False, render=True):
+def run_replay(path, profiles=("debug", "release"), modes=("sync", "yield"), dump=False, render=True, extra_args=None):
     cases = replay_cases(path)
     tmp = os.path.join(vlib.OUT, "replay_cases.jsonl")
     os.makedirs(vlib.OUT, exist_ok=True)
@@ -168,7 +168,9 @@ def run_replay(path, profiles=("debug", "release"), modes=("sync", "yield"), dum
     for prof in profiles:
         b = os.path.join(vlib.cargo_build(prof, hooks=True, bins=["solve_cases"]), "solve_cases")
         for mode in modes:
-            args = ["--cases", tmp, "--mode", mode] + ([] if dump else ["--no-dump"]) + ([] if render else ["--no-render"])
+            m, _, pol = mode.partition(":")
+            args = ["--cases", tmp, "--mode", m] + (["--policy", pol] if pol else []) + ([] if dump else ["--no-dump"]) + (
+                [] if render else ["--no-render"]) + (extra_args or [])
             r, _ = vlib.run_harness(b, args)
             for x in r:
                 x["stream"] = f"replay/{mode}/{prof}"
